@@ -130,6 +130,7 @@ def windows(full=True):
         out += [{"since": t} for t in pts]
         out += [{"until": t} for t in pts]
         out += [{"since": a, "until": b} for a, b in ((10, 30), (11, 29), (19, 21), (20, 20), (20, T9), (21, T9 + 2), (9, 11))]
+        out += [{"until": 0}, {"since": 0}, {"since": 0, "until": 25}]
     else:
         out += [{"since": 20}, {"until": 20}, {"since": 11, "until": 29}]
     return out
@@ -141,7 +142,7 @@ def W_single(tier):
     keys = list(fo)
     out = []
     for w in windows(True):
-        if w:
+        if w and w != {"since": 0}:  # a bare since:0 is a match-all scan, which both backends refuse by policy (R3)
             out.append(dict(w))
     for k in keys:
         for v in fo[k]:
